@@ -370,7 +370,9 @@ def one_tree(tspec, acc, rnd, sample=False, forced=None):
             acc.evaluated()
             # the same patterns handed over as a list and as a one-shot generator: if the scan gives an architecture
             # at all, it is the same one
-            for form, mk in (("list", lambda: list(pats)), ("generator", lambda: (p for p in pats))):
+            from ..drive import typed_names
+
+            for form, mk in (("list", lambda: list(pats)), ("generator", lambda: (p for p in pats)), ("tuple-of-enum-members", lambda: tuple(typed_names(list(pats), "enum"))), ("tuple-of-str-subclass-instances", lambda: tuple(typed_names(list(pats), "strsub")))):
                 kw2 = {"exclusions": (), "regex_exclusions": mk()} if use_regex else {"exclusions": mk()}
                 try:
                     get_evaluable_architecture(root, mp_abs, **kw2, **inc_kw)
